@@ -1,6 +1,7 @@
 /-
   C14 — Pods and nodes are attributed to node groups exactly as documented.
 -/
+import EscProofs.P.GenFilters
 import Esc.Spec
 namespace Esc.P
 open Esc
